@@ -105,7 +105,8 @@ package node
 //@   ensures[K2_data]  dsKept(cr) && crOK(cr)
 //@   ensures[K1_desc]  descOnly(result, srcsel) && operandOK(result, srcsel, len(*cr.DS)) && bck(result, srcsel) != bytecode.AddrImm
 //@   ensures[K1_expr]  isExpr(self) ==> bck(result, srcsel) != bytecode.AddrInv
-//@   ensures[K1_namer] isNamer(self) ==> bck(result, srcsel) == bytecode.AddrGbl || bck(result, srcsel) == bytecode.AddrLcl || bck(result, srcsel) == bytecode.AddrCls
+//@   ensures[K1_namer] (dyntype(self) == typeid[Name]() ==> bck(result, srcsel) == bytecode.AddrGbl) && (dyntype(self) == typeid[Local]() ==> bck(result, srcsel) == bytecode.AddrLcl)
+//@       && (dyntype(self) == typeid[Closure]() ==> bck(result, srcsel) == bytecode.AddrCls)
 //@   ensures[K1_tmp]   bck(result, srcsel) == bytecode.AddrTmp ==> !fl.Data().ForbidTemp && (fl.Data().OpDepth > 0 || fl.Data().AcceptTemp || fl.Data().Discard)
 //
 //@ func (Int).byteCode [C05,C12] implements ByteCoder.byteCode
